@@ -330,25 +330,27 @@ def t2(run, thorough):
     return len(asserts)
 
 
-def t3(run, thorough):
+def enum_prim_table():
+    """(size, signed) -> name of the PRIM_ constant EnumExpr.as_python_expr writes, by walking the method symbolically for every
+    (size, signed) -- however the table is laid out"""
     m = cffi_mod('recompiler')
     fn = m.find('EnumExpr.as_python_expr')
-    d = [n for n in ast.walk(fn) if isinstance(n, ast.Dict)]
-    run.need(len(d) == 1, 'EnumExpr.as_python_expr: expected one (size, signed) -> PRIM table')
-    seen = {}
-    for k, v in zip(d[0].keys, d[0].values):
-        try:
-            key = ast.literal_eval(k)
-        except Exception:
-            raise AnalysisError('EnumExpr.as_python_expr: table key %s is not a literal' % u(k))
+    out = {}
+    for size in (1, 2, 4, 8):
+        for signed in (0, 1):
+            got = []
+            ev = sp.Evaluator({'format_four_bytes': lambda a, k, e, f: got.append(a[0]) or 'XXXX'})
+            ev.run(fn, {'self.size': size, 'self.signed': signed, 'self.type_index': 0, 'self.name': 'e', 'self.allenums': 'A'})
+            prims = [x.text for x in got if isinstance(x, sp.Opq) and x.text.startswith('PRIM_')]
+            out[(size, signed)] = prims[0] if len(prims) == 1 else None
+    return m, fn, out
+
+
+def t3(run, thorough):
+    m, fn, table = enum_prim_table()
+    for key, got in sorted(table.items()):
         want = 'PRIM_%sINT%d' % ('' if key[1] else 'U', 8 * key[0])
-        seen[key] = u(v)
-        run.ob('T3/python-target-prim-table', 'EnumExpr.as_python_expr', '%r -> %s' % (key, u(v)), u(v) == want, m.where(k), 'expected %s' % want)
-    for key in [(s, g) for s in (4, 8) for g in (0, 1)]:
-        run.ob('T3/python-target-prim-table', 'EnumExpr.as_python_expr', 'row for %r present' % (key,), key in seen, m.where(fn))
-    sub = [n for n in ast.walk(fn) if isinstance(n, ast.Subscript) and n.value is d[0]]
-    ok = len(sub) == 1 and u(sub[0].slice) in ('(self.size, self.signed)', 'self.size, self.signed')
-    run.ob('T3/python-target-prim-table', 'EnumExpr.as_python_expr', 'indexed by (self.size, self.signed)', ok, m.where(fn))
+        run.ob('T3/python-target-prim-table', 'EnumExpr.as_python_expr', '(size, signed) = %r' % (key,), got == want, m.where(fn), 'writes %s, expected %s' % (got, want))
     # the C macro
     inc = os.path.join(repo_root(), 'src/cffi/_cffi_include.h')
     asserts = []
@@ -372,7 +374,7 @@ def t3(run, thorough):
             first = v[0]
     ok = first is not None and re.search(r'_cffi_prim_int\(\s*SIZE\s*,\s*SIGNED\s*\)', first) is not None and '"NAME"' in first and re.search(r',\s*3\s*,', first)
     run.ob('T3/c-target-row-layout', 'EnumExpr.as_c_expr', '{ "name", type_index, _cffi_prim_int(size, signed), ...', bool(ok), m.where(fc), 'first line: %r' % (first,))
-    return len(seen)
+    return len(table)
 
 
 # ---------------------------------------------------------------------------------------------
